@@ -10,7 +10,7 @@ PROPS_FILE = "Props/C07.v"
 CORR_IMPORTS = "Base Index CorrC07"
 ENTRY = "cassis.cas.Cas.select_covered / select_covering / _get_feature_structures_in_range"
 RULE = (
-    "quick: every multiset of <=3 spans over offsets 0..3 (types rotated over a 4-type tree, decoys in a second view "
+    "quick: every multiset of <=3 spans over offsets 0..3 (types rotated over a 4-type tree, decoys in a second view; random cases also index instances of built-in annotation types queried through built-in supertypes, and create subtypes after a first query, index instances of them and query again "
     "and in an unrelated type) x every query span x query type in {root, leaf}, plus seeded random instances (<=60 "
     "annotations, clustered and large offsets); thorough: multisets of <=4 spans and random instances up to 2000 "
     "annotations. A case is non-trivial when some indexed annotation of the queried subtree is zero-width at an edge "
@@ -28,16 +28,32 @@ ASSUMPTIONS = ["annotations are well-formed (begin <= end) and the query span ha
                "ties in (begin, end) are ordered by id() in the code: results are compared as label multisets"]
 
 TREE = [["t.Root", "uima.tcas.Annotation"], ["t.Mid", "t.Root"], ["t.Leaf", "t.Mid"], ["t.Other", "uima.tcas.Annotation"]]
-SUB = {"t.Root": ["t.Root", "t.Mid", "t.Leaf"], "t.Mid": ["t.Mid", "t.Leaf"], "t.Leaf": ["t.Leaf"], "t.Other": ["t.Other"]}
+BUILTIN_TREE = [["uima.cas.AnnotationBase", "uima.cas.TOP"], ["uima.tcas.Annotation", "uima.cas.AnnotationBase"],
+                ["uima.tcas.DocumentAnnotation", "uima.tcas.Annotation"]]
 _TS = {}
 
 
-def _ts(cassis):
-    if "ts" not in _TS:
+def _subtree(sc, root, with_late=True):
+    """Names of root and its transitive subtypes, from the scenario alone."""
+    edges = BUILTIN_TREE + TREE + (sc.get("late", {}).get("types", []) if with_late else [])
+    out, todo = [], [root]
+    while todo:
+        n = todo.pop()
+        if n in out:
+            continue
+        out.append(n)
+        todo.extend(c for c, p in edges if p == n)
+    return out
+
+
+def _ts(cassis, fresh=False):
+    if fresh or "ts" not in _TS:
         from cassis import TypeSystem
         ts = TypeSystem()
         for name, parent in TREE:
             ts.create_type(name, parent)
+        if fresh:
+            return ts
         _TS["ts"] = ts
     return _TS["ts"]
 
@@ -82,47 +98,81 @@ def generate(rng, tier):
         else:
             qb = rng.randint(0, hi)
             qe = rng.randint(qb, hi)
-        yield {"adds": adds, "q": {"t": rng.choice(types), "v": rng.choice([0, 0, 1]), "b": qb, "e": qe,
-                                   "form": rng.choice(["type", "name"])}}
+        sc = {"adds": adds, "q": {"t": rng.choice(types), "v": rng.choice([0, 0, 1]), "b": qb, "e": qe,
+                                  "form": rng.choice(["type", "name"])}}
+        kind = r % 4
+        if kind == 1 and not big:
+            # instances of built-in types, queried through built-in supertypes
+            for a in sc["adds"]:
+                if rng.random() < 0.4:
+                    a["t"] = rng.choice(["uima.tcas.Annotation", "uima.tcas.DocumentAnnotation"])
+            sc["q"]["t"] = rng.choice(["uima.tcas.Annotation", "uima.cas.AnnotationBase", "uima.tcas.DocumentAnnotation", "t.Root"])
+        elif kind == 2 and not big:
+            # query, then create subtypes below the queried subtree, index instances of them, query again
+            parent = rng.choice(_subtree(sc, sc["q"]["t"], with_late=False))
+            late_types = [["t.Late1", parent]]
+            if rng.random() < 0.5:
+                late_types.append(["t.Late2", rng.choice(["t.Late1", "t.Other", parent])])
+            late_adds = []
+            for j in range(rng.randint(1, 4)):
+                b = rng.randint(max(0, qb - 1), qe)
+                e = b if rng.random() < 0.3 else rng.randint(b, qe + 1)
+                late_adds.append({"l": 5000 + j, "t": rng.choice([t for t, _p in late_types]), "v": sc["q"]["v"], "b": b, "e": e})
+            sc["late"] = {"types": late_types, "adds": late_adds}
+        yield sc
 
 
 def run_impl(cassis, sc):
     from cassis import Cas
-    ts = _ts(cassis)
+    late = sc.get("late")
+    ts = _ts(cassis, fresh=bool(late))
     cas = Cas(typesystem=ts)
     views = [cas, cas.create_view("v2")]
     lab = {}
-    for a in sc["adds"]:
-        T = ts.get_type(a["t"])
-        fs = T(begin=a["b"], end=a["e"])
-        views[a["v"]].add(fs)
-        lab[id(fs)] = (a["l"], fs)
+
+    def add_all(adds):
+        for a in adds:
+            T = ts.get_type(a["t"])
+            fs = T(begin=a["b"], end=a["e"])
+            views[a["v"]].add(fs)
+            lab[id(fs)] = (a["l"], fs)
+
+    def labels(res):
+        return [lab[id(fs)][0] if id(fs) in lab else -1 for fs in res]
+
     q = sc["q"]
     Ann = ts.get_type("uima.tcas.Annotation")
     probe = Ann(begin=q["b"], end=q["e"])
-    targ = ts.get_type(q["t"]) if q["form"] == "type" else q["t"]
     view = views[q["v"]]
-    cov = list(view.select_covered(targ, probe))
-    cing = list(view.select_covering(targ, probe))
 
-    def labels(res):
-        out = []
-        for fs in res:
-            if id(fs) not in lab:
-                out.append(-1)
-            else:
-                out.append(lab[id(fs)][0])
-        return out
+    def query():
+        targ = ts.get_type(q["t"]) if q["form"] == "type" else q["t"]
+        return list(view.select_covered(targ, probe)), list(view.select_covering(targ, probe))
 
-    return {"covered": sorted(labels(cov)), "covering": sorted(labels(cing)),
-            "covered_seq": [[fs.type.name, fs.begin, fs.end] for fs in cov]}
+    add_all(sc["adds"])
+    obs = {}
+    if late:
+        c0, g0 = query()
+        obs["pre_covered"], obs["pre_covering"] = sorted(labels(c0)), sorted(labels(g0))
+        for name, parent in late["types"]:
+            ts.create_type(name, parent)
+        add_all(late["adds"])
+    cov, cing = query()
+    obs.update({"covered": sorted(labels(cov)), "covering": sorted(labels(cing)),
+                "covered_seq": [[fs.type.name, fs.begin, fs.end] for fs in cov]})
+    return obs
 
 
-def _expected(sc, rel):
+def _all_adds(sc, with_late=True):
+    return sc["adds"] + (sc.get("late", {}).get("adds", []) if with_late else [])
+
+
+def _expected(sc, rel, with_late=True):
     q = sc["q"]
+    sub = _subtree(sc, q["t"], with_late)
     out = []
-    for a in sc["adds"]:
-        if a["v"] != q["v"] or a["t"] not in SUB[q["t"]]:
+    for a in _all_adds(sc, with_late):
+        if a["v"] != q["v"] or a["t"] not in sub:
             continue
         if rel == "covered" and q["b"] <= a["b"] and a["e"] <= q["e"]:
             out.append(a["l"])
@@ -132,6 +182,11 @@ def _expected(sc, rel):
 
 
 def oracle(cassis, sc, obs):
+    if "late" in sc:
+        for rel in ("covered", "covering"):
+            exp = _expected(sc, rel, with_late=False)
+            if obs["pre_" + rel] != exp:
+                return f"select_{rel} before the late types exist: expected labels {exp[:20]} got {obs['pre_' + rel][:20]}"
     for rel in ("covered", "covering"):
         exp = _expected(sc, rel)
         if obs[rel] != exp:
@@ -149,17 +204,18 @@ def oracle(cassis, sc, obs):
 
 def render(sc, obs):
     q = sc["q"]
-    adds = [a for a in sc["adds"] if a["v"] == q["v"]]
+    adds = [a for a in _all_adds(sc) if a["v"] == q["v"]]
     adds_t = glist([f'mkAnn {gstr(a["t"])} (mkKey {gz(a["b"])} {gz(a["e"])} {gz(a["l"])})' for a in adds])
-    types_t = glist([gstr(t) for t in SUB[q["t"]]])
+    types_t = glist([gstr(t) for t in _subtree(sc, q["t"])])
     return (f"mkCase {adds_t} {types_t} {gz(q['b'])} {gz(q['e'])} "
             f"{glist([gz(x) for x in obs['covered']])} {glist([gz(x) for x in obs['covering']])}")
 
 
 def nontrivial(sc):
     q = sc["q"]
-    for a in sc["adds"]:
-        if a["v"] != q["v"] or a["t"] not in SUB[q["t"]]:
+    sub = _subtree(sc, q["t"])
+    for a in _all_adds(sc):
+        if a["v"] != q["v"] or a["t"] not in sub:
             continue
         if a["b"] == a["e"] and a["b"] in (q["b"], q["e"]):
             return True
@@ -200,7 +256,9 @@ def distribution(scenarios, observations):
     return {"cases": len(scenarios), "max_annotations": max(sizes or [0]),
             "zero_width_present": sum(1 for s in scenarios if any(a["b"] == a["e"] for a in s["adds"])),
             "second_view_queries": sum(1 for s in scenarios if s["q"]["v"] == 1),
-            "by_query_type": {t: sum(1 for s in scenarios if s["q"]["t"] == t) for t in SUB},
+            "by_query_type": {t: sum(1 for s in scenarios if s["q"]["t"] == t) for t in sorted({s["q"]["t"] for s in scenarios})},
+            "with_late_subtypes": sum(1 for s in scenarios if "late" in s),
+            "builtin_typed_instances": sum(1 for s in scenarios if any(a["t"].startswith("uima.") for a in s["adds"])),
             "nonempty_covered": sum(1 for o in observations if o and o["covered"]),
             "nonempty_covering": sum(1 for o in observations if o and o["covering"])}
 
